@@ -23,6 +23,8 @@ def run(ctx):
     rule_L3_L4(ctx)
     rule_L1d_transition(ctx)
     rule_T3(ctx, view=True)
+    from ..pathrules import rule_T5
+    rule_T5(ctx)      # the loop of run() ends only when every shell has its minimum (success predicate)
     rule_T4(ctx)
     rule_A2_A6(ctx)
     from ..initrules import rule_I1
